@@ -755,12 +755,12 @@ def _pool():
 def node_resolution(which: int, kind: int, disp: int) -> bool:
     """
     pre: 0 <= which < 15
-    pre: 0 <= kind < 4
+    pre: 0 <= kind < 6
     pre: 0 <= disp < 2**64
     post: __return__
     """
     w = pick(which, 15)
-    k = pick(kind, 4)
+    k = pick(kind, 6)
     NA = 11
     with untraced():
         ira, irb, attached, other, det = _pool()
@@ -774,6 +774,10 @@ def node_resolution(which: int, kind: int, disp: int) -> bool:
         tn, val = "Offset", gtirb.Offset(target if target is not None else u, disp)
     elif k == 2:
         tn, val = "sequence<UUID>", [u, u]
+    elif k == 4:
+        tn, val = "variant<string,UUID>", Variant(1, u)
+    elif k == 5:
+        tn, val = "mapping<string,variant<int64_t,tuple<UUID,sequence<Offset>>>>", {"k": Variant(1, (u, [gtirb.Offset(u, disp)]))}
     else:
         tn, val = "mapping<UUID,Offset>", {u: gtirb.Offset(u, disp)}
     raw = _encode(val, tn)
@@ -788,6 +792,15 @@ def node_resolution(which: int, kind: int, disp: int) -> bool:
         if len(back) != 2:
             return fail("len")
         got = [back[0], back[1]]
+    elif k == 4:
+        if back.index != 1:
+            return fail("variant index")
+        got = [back.val]
+    elif k == 5:
+        inner = back["k"]
+        if inner.index != 1 or inner.val[1][0].displacement != disp:
+            return fail("nested variant")
+        got = [inner.val[0], inner.val[1][0].element_id]
     else:
         if len(back) != 1:
             return fail("len")
